@@ -910,7 +910,7 @@ CAP_POOL = [b"multi_ack", b"thin-pack", b"side-band", b"side-band-64k", b"ofs-de
             b"push-options", b"session-id=abc-123", b"symref=refs/remotes/origin/HEAD:refs/remotes/origin/main"]
 
 REF_COMPONENT_POOL = [b"master", b"main", b"x", b"a-b", b"A", b"v1.0", b"feature", b"caf\xc3\xa9", b"\xff\xfe", b"a@b", b"we}ird", b"1+1=2",
-                      b"semi;colon", b"qu\"ote", b"pa(ren)", b"am&p", b"pi|pe", b"l<t>", b"do$", b"ha#sh", b"per%cent", b"it's", b"ex!", b"co,mma"]
+                      b"semi;colon", b"qu\"ote", b"pa(ren)", b"am&p", b"pi|pe", b"l<t>", b"do$", b"ha#sh", b"per%cent", b"it's", b"ex!", b"co,mma", b"v2{beta}", b"build}", b"{}", b"x}}{", b"rel-{3", b"up}"]
 
 
 def _caps_strategy():
@@ -920,7 +920,7 @@ def _caps_strategy():
     _tbl = bytes(c if c not in _bad else 0x21 + c for c in range(256))
     token = st.one_of(st.sampled_from(CAP_POOL), st.sampled_from(CAP_POOL), st.binary(min_size=1, max_size=12).map(lambda b: b.translate(_tbl)))
     caps = st.lists(token, min_size=0, max_size=25)
-    _refbad = bytes(range(0x21)) + b"~^:?*[\\\x7f./{"
+    _refbad = bytes(range(0x21)) + b"~^:?*[\\\x7f./@"  # '{' is only forbidden after '@'; names may end in '{' or '}' 
     _reftbl = bytes(c if c not in _refbad else ord("a") + c % 26 for c in range(256))
     comp = st.one_of(st.sampled_from(REF_COMPONENT_POOL), st.binary(min_size=1, max_size=8).map(lambda b: b.translate(_reftbl)))
     ref = st.lists(comp, min_size=1, max_size=3).map(lambda cs: b"refs/" + b"/".join(cs))
@@ -1018,6 +1018,18 @@ def exec_refs(ctx, case, check="refs"):
     if set(got_caps) != set(caps):
         ctx.fail("C19:read_pkt_refs_v1:capabilities-differ", f"{style}-style advertisement: capabilities {sorted(got_caps)!r}, "
                  f"expected {sorted(set(caps))!r}", check, case)
+    # the next decoding step of the HTTP clients: "<name>^{}" lines become the peeled map, everything else stays
+    try:
+        reg, peeled = P.split_peeled_refs(dict(want_refs))
+    except Exception as e:
+        ctx.fail(f"C19:split_peeled_refs:{type(e).__name__}", f"split_peeled_refs raised {type(e).__name__}({e})", check, case)
+        return events, tr.cuts
+    want_reg = {r: s for r, s in want_refs.items() if not r.endswith(b"^{}")}
+    want_peeled = {r[:-3]: s for r, s in want_refs.items() if r.endswith(b"^{}")}
+    if dict(reg) != want_reg or dict(peeled) != want_peeled:
+        odd = sorted(set(dict(peeled)) ^ set(want_peeled)) + sorted(set(dict(reg)) ^ set(want_reg))
+        ctx.fail("C19:split_peeled_refs:advertisement-not-preserved", f"split_peeled_refs of the advertised refs: names {odd[:4]!r} are lost or "
+                 f"invented ({len(want_peeled)} peeled lines advertised)", check, case)
     return events, tr.cuts
 
 
